@@ -37,7 +37,15 @@ Abstractions:
 * `clocks`  — Block Time/Scope Time are paused whenever System State ≠ Running (set in
               `update_calculated_tags`), and Restart zeroes Process Time/Run Time like Start;
 * `prevFix` — `set_run_id`/`clear_run_id` clear `_prev_state`.
-Fields `lastCap`, `capRun`, `capLive` of `Core` are history (ghost) variables: written, never read.
+Further switches (all default off = code as it was when the model was first written; /repo HEAD has the first six):
+* `startWrite`, `pauseGate`, `errSafe` — the three C08 repairs (fixes/C08-*.diff);
+* `pauseOnce` — a Pause body that runs while already paused keeps the snapshot of the pause onset
+                (fixes/C09-double-pause-capture.diff);
+* `idleErr`  — `set_error_state` with no run active only reports the error, System State stays Stopped
+                (fixes/C06-error-while-idle-stays-stopped.diff).
+The checks probe the tree under test (harness/runstate.py `probe`) and use the matching variant.
+Fields `lastCap`, `capRun`, `capLive`, `onsetCap`, `touched`, `touchedRun` of `Core` are history (ghost)
+variables: written, never read.
 Core Lean only.
 -/
 namespace OPM.RunState
